@@ -44,7 +44,8 @@ func LeafHashB64(chain []*x509.Certificate, sct *ct.SignedCertificateTimestamp, 
 // LeafHash calculates the leaf hash of the certificate or precertificate at
 // chain[0] that sct was issued for.
 //
-// sct is required because the SCT timestamp is used to calculate the leaf hash.
+// sct is required because the SCT timestamp and extensions are part of the leaf
+// that is hashed.
 // Leaf hashes are unique to (pre)certificate-SCT pairs.
 //
 // This function can be used with three different types of leaf certificate:
@@ -188,6 +189,9 @@ func createLeaf(chain []*x509.Certificate, sct *ct.SignedCertificateTimestamp, e
 	if err != nil {
 		return nil, fmt.Errorf("error creating MerkleTreeLeaf: %s", err)
 	}
+	// The leaf the log stored for this SCT carries the SCT's extensions as
+	// well as its timestamp (RFC 6962 s3.4).
+	leaf.TimestampedEntry.Extensions = sct.Extensions
 	return leaf, nil
 }
 
